@@ -22,14 +22,24 @@ def expected_modules(dirs, files, mp):
 
 
 def hierarchy_ok(arch, modules):
-    """sub modules of X (as the rule language sees them) = modules whose dotted name extends X."""
-    from pytestarch.eval_structure.breadth_first_searches import get_all_submodules_of
-    from pytestarch.eval_structure.evaluable_architecture import ModuleNameFilter
+    """sub modules of X (as the rule language sees them: what is reachable from X over the graph's hierarchy edges) =
+    modules whose dotted name extends X."""
+    try:
+        nx = rules.nx_of(arch)
+        kids = {}
+        for a, b in nx.edges():
+            if rules.is_hierarchy_pair(a, b):
+                kids.setdefault(a, []).append(b)
+    except Exception:  # noqa: BLE001
+        return (modules[0] if modules else "?"), None
     for m in modules:
-        try:
-            got = set(get_all_submodules_of(arch._graph, ModuleNameFilter(name=m)))
-        except Exception:  # noqa: BLE001
-            return m, None
+        got, todo = set(), [m]
+        while todo:
+            x = todo.pop()
+            if x in got:
+                continue
+            got.add(x)
+            todo.extend(kids.get(x, []))
         exp = {x for x in modules if x == m or x.startswith(m + ".")}
         if got != exp:
             return m, (sorted(got), sorted(exp))
